@@ -312,7 +312,7 @@ def runSection (r : Report) (s : Section) : Report := Id.run do
             if kvInt l.obs "flying" (-999) ≠ h'.inFlight then
               r := r.violation s.idx l.idx s!"in-flight counter {kvInt l.obs "flying" (-999)} but admitted-resolved = {h'.inFlight}"
             if ((kv? l.obs "avg").bind parseRat).map (Spec.near h'.avg) ≠ some true then
-              r := r.violation s.idx l.idx s!"moving average {kvStr l.obs "avg"} but the history gives {showRat h'.avg}"
+              r := r.violation s.idx l.idx s!"moving average {kvStr l.obs "avg"} but the history gives {showRat h'.avg} (clause 2: the average of the in-flight count, 0.9 x average + 0.1 x in-flight at every Pass and Fail, is what Allow compares with the capacity estimate)"
           st := { st with insts := setInst st.insts { inst with sh := sh', h := h', dirty := dirty },
                           proms := st.proms.map fun q => if q.id = pr.id then { q with resolved := true } else q }
     | _ => r := r.mismatch s.idx l.idx "bad-op" (joinSp l.op)
